@@ -21,4 +21,4 @@ pub use kernel::{
     now_ns, run, yield_point,
 };
 pub use rng::Choices;
-pub use tokio_rt::{block_until, tokio_shim};
+pub use tokio_rt::{block_until, tokio_mpsc, tokio_shim};
